@@ -455,6 +455,40 @@ def r16_10(run, model):
                witness="package Lib { extern type Time; extern \"go\" \"time\" now() -> Time }: the output contains `type _goml_Lib_x3a__x3a_Time = time.Lib::Time`, which is not Go")
 
 
+def r16_11(run, model):
+    run.rule("R16.11", "a mismatched package declaration is an error in the separate pipeline: in read_source_files the test that rejects a "
+                       "file holds whenever the file's declared package differs from the package being compiled, whatever else the "
+                       "condition mentions (no exemption for particular package names)")
+    SEP = "crates/compiler/src/pipeline/separate.rs"
+    f = model.fn("read_source_files", SEP)
+    import itertools
+    n = 0
+    for iff in S.find(f.body, "If"):
+        ct = S.norm_ws(run.facts.text(SEP, iff["cond"]["sp"]))
+        if "package" not in ct or not any(r.get("expr") is not None and S.callee_name(r["expr"]) == "Err" for r in S.find(iff["then"], "Return")):
+            continue
+        atoms = S.bool_atoms(iff["cond"])
+        texts = sorted({S.norm_ws(run.facts.text(SEP, a["sp"])) for a in atoms})
+        main = [t for t in texts if re.fullmatch(r"ast\.package\.0!=&?package|&?package!=ast\.package\.0", t)]
+        if not main:
+            continue
+        n += 1
+        ok, counter = True, None
+        for vals in itertools.product([False, True], repeat=len(texts)):
+            env = dict(zip(texts, vals))
+            if not env[main[0]]:
+                continue
+            if not S.bool_eval(iff["cond"], lambda a: env[S.norm_ws(run.facts.text(SEP, a["sp"]))]):
+                ok, counter = False, env
+                break
+        run.ob("R16.11", "read_source_files|every file of another package is rejected", ok, site(SEP, iff["sp"]),
+               f"condition: {ct[:100]}" + (f"; not rejected when {counter}" if counter else ""),
+               witness="build --package Lib --input lib.gom helper.gom where helper.gom has no package clause (package Main): accepted, its functions "
+                       "land in the unqualified namespace and Main's same-named function replaces them at link")
+    if n == 0:
+        raise AnalysisIncomplete("read_source_files: package mismatch test not found")
+
+
 def run(run, model):
     mir = Mir(run.facts)
     run.try_rule(r16_1, model, mir)
@@ -466,6 +500,7 @@ def run(run, model):
     run.try_rule(r16_8, model)
     run.try_rule(r16_9, model)
     run.try_rule(r16_10, model)
+    run.try_rule(r16_11, model)
     from rules import c04
     run.rule("R16.6", "a package missing from the link inputs is reported, not skipped (shared with C04 R04.8)")
     run.try_rule(c04.r04_8, model)
